@@ -42,6 +42,14 @@ static size_t vf_strlen (const char *v)
 }
 #define strlen vf_strlen
 #include "/repo/dbus/dbus-marshal-basic.c"
+#ifdef POSOFF
+/* OP 4 (far header): the position the reader reports for a field value is shifted by a solver-chosen K, standing for a header whose fields lie K bytes further
+ * along (headers may be up to 2^27 bytes; building one is far outside any buffer bound).  The cache must hand every such position back unchanged. */
+#include <dbus/dbus-marshal-recursive.h>
+static int vf_posoff;
+static int vf_value_pos (const DBusTypeReader *r) { return _dbus_type_reader_get_value_pos (r) + vf_posoff; }
+#define _dbus_type_reader_get_value_pos vf_value_pos
+#endif
 #include "/repo/dbus/dbus-marshal-header.c"          /* same oracle for any strlen a change introduces into the header code */
 #undef strlen
 #ifndef OP
@@ -74,7 +82,7 @@ static const struct { unsigned char code; char type; int len; } shapes[][NF_MAX]
   /* 5 */ { {3, 's', 1}, {10, 'o', 3}, {2, 's', 3}, {9, 'u', 4}, {1, 'o', 1}, {0} },
   /* 6 */ { {11, 's', 1}, {127, 'g', 2}, {128, 'y', 1}, {255, 'u', 4}, {0} },
 };
-static struct fld M[NF_MAX + 1], M0[NF_MAX + 1]; static int nf;
+static struct fld M[NF_MAX + 1], M0[NF_MAX + 1]; static int nf; static int VP[NF_MAX + 1];   /* VP: where the encoder put each value (aligned start) */
 static int al (int p, int a) { return (p + a - 1) / a * a; }
 static void put32 (unsigned char *p, unsigned v) { int i; for (i = 0; i < 4; i++) p[i] = (unsigned char) (ORDER == 'l' ? v >> (8 * i) : v >> (8 * (3 - i))); }
 static unsigned get32 (const unsigned char *p) { unsigned v = 0; int i; for (i = 0; i < 4; i++) v |= (unsigned) p[i] << (ORDER == 'l' ? 8 * i : 8 * (3 - i)); return v; }
@@ -88,10 +96,10 @@ static int ref_encode (unsigned char *out)
       out[pos++] = M[i].code; out[pos++] = 1; out[pos++] = (unsigned char) M[i].type; out[pos++] = 0;
       switch (M[i].type)
         {
-        case 'y': out[pos++] = M[i].val[0]; break;
-        case 'u': while (pos % 4) out[pos++] = 0; for (k = 0; k < 4; k++) out[pos++] = M[i].val[k]; break;
-        case 'g': out[pos++] = (unsigned char) M[i].len; for (k = 0; k < M[i].len; k++) out[pos++] = M[i].val[k]; out[pos++] = 0; break;
-        default:  while (pos % 4) out[pos++] = 0; put32 (out + pos, (unsigned) M[i].len); pos += 4; for (k = 0; k < M[i].len; k++) out[pos++] = M[i].val[k]; out[pos++] = 0; break;
+        case 'y': VP[i] = pos; out[pos++] = M[i].val[0]; break;
+        case 'u': while (pos % 4) out[pos++] = 0; VP[i] = pos; for (k = 0; k < 4; k++) out[pos++] = M[i].val[k]; break;
+        case 'g': VP[i] = pos; out[pos++] = (unsigned char) M[i].len; for (k = 0; k < M[i].len; k++) out[pos++] = M[i].val[k]; out[pos++] = 0; break;
+        default:  while (pos % 4) out[pos++] = 0; VP[i] = pos; put32 (out + pos, (unsigned) M[i].len); pos += 4; for (k = 0; k < M[i].len; k++) out[pos++] = M[i].val[k]; out[pos++] = 0; break;
         }
     }
   put32 (out + 12, (unsigned) (pos - 16));
@@ -150,7 +158,17 @@ void harness (void)
   { const DBusString *ps_; int pp_; (void) _dbus_header_get_field_raw (&h, DBUS_HEADER_FIELD_PATH, &ps_, &pp_); }
 #endif
   /* ---- the edit, on the real code and on the model */
-#if OP == 0
+#if OP == 4
+  /* no edit: every field of a far header is found at the position the reader reported, whatever that position is (up to the 2^27-byte message limit) */
+  vf_posoff = 8 * vf_range (0, (DBUS_MAXIMUM_MESSAGE_LENGTH / 8) - 32);
+  for (k = 1; k <= DBUS_HEADER_FIELD_LAST; k++)
+    { const DBusString *s_ = 0; int p_ = -1; dbus_bool_t got_ = _dbus_header_get_field_raw (&h, k, &s_, &p_);
+      idx = find (k);
+      if (idx < 0) VF_ASSERT (!got_, "an absent field reads as absent (far header)");
+      else VF_ASSERT (got_ && s_ == &h.data && p_ == VP[idx] + vf_posoff, "a field value is found at exactly the position the reader reported, for every position a header can have"); }
+  VF_WITNESS_OPT ("far header read"); vf_posoff = 0; ok = TRUE;
+  for (i = 0; i <= DBUS_HEADER_FIELD_LAST; i++) h.fields[i].value_pos = _DBUS_HEADER_FIELD_VALUE_UNKNOWN;
+#elif OP == 0
   ok = _dbus_header_remove_unknown_fields (&h);
   for (i = 0, k = 0; i < nf; i++) if (M[i].code <= DBUS_HEADER_FIELD_LAST) M[k++] = M[i];
   nf = k;
